@@ -399,6 +399,11 @@ func (r ExecResult) Tri(i int) Tri { return Decide3(r.May[i], r.Must[i]) }
 // Stops block or at a back edge to Header; back edges to other loop headers end the path silently
 // (the zero-iteration path through that header is explored separately).
 func (g *Graph) Exec(from Loc, targets []Loc, leaf Leaf, o ExecOpts) ExecResult {
+	if root := g.Fn.Root(); root.execFrom == nil {
+		fr := from
+		root.execFrom, root.execGraph, root.regionCache = &fr, g, nil
+		defer func() { root.execFrom, root.execGraph, root.regionCache = nil, nil, nil }()
+	}
 	opts := o
 	info := g.Fn.Info()
 	res := ExecResult{May: make([]bool, len(targets)), Must: make([]bool, len(targets)), Vals: make([]map[string]bool, len(targets))}
